@@ -67,6 +67,9 @@ def evalrows(rows, tpt, poly):
     return sum(c * mono(a, tpt, poly) for a, c in rows)
 
 
+MUTATED = []
+
+
 def impl_mra(s_rows, h_rows, L_rows, n, poly, symbolic):
     _, _, sc = mods()
     with warnings.catch_warnings():
@@ -74,9 +77,22 @@ def impl_mra(s_rows, h_rows, L_rows, n, poly, symbolic):
         s = to_obj(s_rows, n, poly, symbolic)
         h = to_obj(h_rows, n, poly)
         L = to_obj(L_rows, n, poly)
+        snap = [(np.asarray(o.alpha, dtype=float).copy(), None if symbolic and o is s else np.asarray(o.c, dtype=float).copy()) for o in (s, h, L)]
         try:
             C = sc.moment_reduction_array(s, h, L)
         except RuntimeError:
+            C = None
+        # the function reads its arguments: they are what they were, and a second call with the same triple gives the same answer
+        for nm, o, (a0, c0) in zip(('s_h', 'h', 'L'), (s, h, L), snap):
+            if not np.array_equal(np.asarray(o.alpha, dtype=float), a0) or (c0 is not None and not np.array_equal(np.asarray(o.c, dtype=float), c0)):
+                MUTATED.append('moment_reduction_array changed its argument %s: exponents %s -> %s' % (nm, a0.tolist(), np.asarray(o.alpha, dtype=float).tolist()))
+        try:
+            C2 = sc.moment_reduction_array(s, h, L)
+        except RuntimeError:
+            C2 = None
+        if (C is None) != (C2 is None) or (C is not None and not np.array_equal(np.asarray(C, dtype=float), np.asarray(C2, dtype=float))):
+            MUTATED.append('two calls of moment_reduction_array with the same (s_h, h, L) gave different results')
+        if C is None:
             return None
     return vlib.Some([[Fraction(v) for v in r] for r in np.asarray(C, dtype=float).tolist()])
 
@@ -197,6 +213,11 @@ def run(ctx):
         cases.append(({'n': n, 'poly': poly, 'symbolic': symbolic, 's': jrows(s_rows), 'h': jrows(h_rows), 'L': jrows(L_rows)},
                       cq((symbolic, Nat(n), s_rows, h_rows, L_rows)), cq(out), (s_rows, h_rows, L_rows, n, poly, symbolic)))
     ctx.evaluations += len(cases)
+    ctx.suites['arguments_unchanged'] = {'cases': len(cases), 'failures': len(MUTATED)}
+    if MUTATED:
+        ctx.problem('oracle', 'property fails on the implementation: ' + MUTATED[0], inputs={'suite': 'arguments_unchanged', 'count': len(MUTATED)},
+                    failing_input_found=True)
+        del MUTATED[:]
     mism, err = vlib.run_suite_in_coq(ctx.pid, 'mra', HEADER, "fun x => let '(sy, n, s, h, L) := x in moment_reduction_array sy n s h L",
                                       'res_eqb', 'bool * nat * qsig * qsig * qsig', 'option (list (list Q))',
                                       [(c[1], c[2]) for c in cases], shard=200)
